@@ -20,7 +20,8 @@ from props import _ftp as F
 from props import _genstatus
 
 # PermGenEq: `Permissions` regenerated from fs/permissions.py by harness/extract/permgen.py = Fs.Info.Permissions (design.d/GEN2.md)
-EXTRA_PROOF_MODULES = ("FsProofs.InfoLaws", "FsProofs.PermGenEq")
+# InfoGenEq: the accessors of `Info` regenerated from fs/info.py by harness/extract/infogen.py = Fs.Info.Info.* (design.d/GEN2.md, round 4)
+EXTRA_PROOF_MODULES = ("FsProofs.InfoLaws", "FsProofs.PermGenEq", "FsProofs.InfoGenEq")
 
 NS_SETS = [(), ("basic",), ("details",), ("basic", "details"), ("details", "access"), ("stat",), ("details", "stat", "lstat", "link", "access")]
 STANDARD_NS = ("basic", "details", "access", "link")
@@ -278,6 +279,7 @@ def run(rep, tier, seed, deep=False):
     rng = vlib.rng_for(seed, "c10")
     quick = tier == "quick"
     _genstatus.report(rep, "C10", "PermGen", "FsProofs.PermGenEq", "FsModel/Info.lean (Permissions)")
+    _genstatus.report(rep, "C10", "InfoGen", "FsProofs.InfoGenEq", "FsModel/Info.lean (Info)")
     n_hist, n_ops, every = (60, 16, 4) if quick else (400, 30, 3)
     if deep:
         n_hist *= 3
